@@ -195,6 +195,29 @@ CHECKS["C14"] = dict(
               "Interpolator",
     design="2/C14")
 
+CHECKS["C16"] = dict(
+    level="other",
+    text="The real InletBase.update / OutletBase.update with the real "
+         "IOEvaluate.initialize/loop run on record-list arrays with "
+         "exact-real positions: one update from an arbitrary pre-state "
+         "(inductive step: n<=2 zone particles, <=1-2 fluid particles, "
+         "arbitrary reference point and length, axis-aligned or symbolic "
+         "unit normal), and two consecutive updates with arbitrary motion in "
+         "between; z3 decides on every path that each inlet particle is "
+         "copied exactly when it left the zone, its original is recycled one "
+         "length upstream, fluid particles past the outlet plane move "
+         "exactly once, outlet particles past the far end are deleted, and "
+         "nothing else is created, duplicated or lost. The five shipped "
+         "families share these two update methods.",
+    note="ParticleArray is a record-list model (C06's subject), SPHEvaluator "
+         "a stub applying the real IOEvaluate hooks; floats as reals; "
+         "knife-edge disp-length == 1e-6 excluded; replay uses the real "
+         "compiled arrays and evaluator",
+    technique="symbolic execution of the python update methods on z3 Real "
+              "proxies over model arrays (inductive step), per-path SMT "
+              "queries, replay on the real compiled code",
+    design="2/C16")
+
 NOT_APPLICABLE = {
     "C05": "whole-application runs of compiled OpenMP code compared across "
            "configurations up to summation order: no unit a solver can "
